@@ -729,6 +729,19 @@ fn walk(c: &Ctx, dir: Directory<'_>, lvl: u32, depth: u32, budget: &mut u64, out
 	}
 	let named: Vec<usize> = dir.named_entries().map(|e| e.image() as *const _ as usize).collect();
 	let ids: Vec<usize> = dir.id_entries().map(|e| e.image() as *const _ as usize).collect();
+	{
+		// the three views of one entry array: named_entries() followed by id_entries() is entries(), reference by
+		// reference, with the counts of the directory header; every reference lies inside the section
+		let all: Vec<usize> = dir.entries().map(|e| e.image() as *const _ as usize).collect();
+		let base = c.base;
+		for p in named.iter().chain(ids.iter()).chain(all.iter()) {
+			assert!(*p >= base && *p + 8 <= base + c.len, "harness: returned region outside the section (directory entry)");
+		}
+		assert!(named.len() == dir.image().NumberOfNamedEntries as usize && ids.len() == dir.image().NumberOfIdEntries as usize,
+			"harness: returned region outside its table (named_entries / id_entries do not have the header's counts)");
+		let cat: Vec<usize> = named.iter().chain(ids.iter()).cloned().collect();
+		assert!(cat == all, "harness: returned region outside its table (named_entries ++ id_entries differs from entries)");
+	}
 	for e in dir.entries() {
 		if *budget == 0 {
 			out.push("stop".into());
